@@ -82,6 +82,7 @@ type Obligation struct {
 	SMTHead string // goal with its lemma hypotheses, assuming only what is known at the loop head (the loop body's assertions dropped: a proof from fewer assumptions is a proof)
 	SMTAlt  string // the same goal without the lemma hypotheses of its clause group (a proof of either is a proof)
 	MustSat bool // canaries / covers: expected sat
+	Clause  *Clause // post obligations: the ensures clause they come from
 }
 
 type UnsupportedError struct{ msg string }
@@ -120,6 +121,7 @@ type FnCtx struct {
 	bounded    map[string]bool
 	ghostFuncs map[string]ghostFn
 	stack      []*ssa.Function
+	curClause       *Clause
 	headMarkForHyps int
 	hyps       []Term // goals already proved at the same program point (step clauses are proved in order, each may use the earlier ones)
 	assumeMode bool // specification currently evaluated is going to be assumed (not proved)
@@ -228,7 +230,7 @@ func (fx *FnCtx) oblige(kind, name, text string, st *State, goal Term, pos token
 	if n := fx.obNames[full]; n > 1 {
 		full = fmt.Sprintf("%s#%d", full, n)
 	}
-	ob := &Obligation{Name: full, Kind: kind, Func: fx.topName(), Text: text, Props: props}
+	ob := &Obligation{Name: full, Kind: kind, Func: fx.topName(), Text: text, Props: props, Clause: fx.curClause}
 	if pos.IsValid() {
 		p := fx.eng.prog.Fset.Position(pos)
 		ob.Pos = fmt.Sprintf("%s:%d", p.Filename, p.Line)
@@ -2302,7 +2304,9 @@ func (fr *Frame) atReturn(ret *ssa.Return, vals []Val, st *State) {
 	for _, c := range fr.fc.Ensures {
 		fx.s.goal(func() {
 			t := fr.evalPost(c.E, vals, st)
+			fx.curClause = c
 			fx.oblige("post", fmt.Sprintf("%s/post/%s", name, c.Label), c.Text, st, t, ret.Pos(), fr.props())
+			fx.curClause = nil
 		})
 	}
 	for _, c := range fr.fc.Canaries {
